@@ -335,6 +335,15 @@ def ltUnsigned (a b : Key) : Bool := Bits.bitsToNat a < Bits.bitsToNat b
 /-- Compare of IntN: two's complement numeric order -/
 def ltSigned (a b : Key) : Bool := Bits.bitsToInt a < Bits.bitsToInt b
 
+/-- executable forms of the two comparisons for keys of one width (used by the driver; proved equal to `ltUnsigned` /
+`ltSigned` in TongoProofs.C05: `ltUnsigned_eq_fast`, `ltSigned_eq_fast`): unsigned order is the bit order; signed
+order puts a set sign bit first and otherwise compares the remaining bits -/
+def ltUnsignedFast (a b : Key) : Bool := lexLt a b
+
+def ltSignedFast : Key → Key → Bool
+  | x :: as, y :: bs => if x == y then lexLt as bs else x
+  | _, _ => false
+
 /-- a dictionary built by successive Put from empty -/
 def buildPut {V : Type} (lt : Key → Key → Bool) (ops : List (Key × V)) : List (Key × V) :=
   ops.foldl (fun d kv => put lt d kv.1 kv.2) []
